@@ -67,6 +67,19 @@ SafeStrncat(size, src, buf0) ==
 RoomyCopy(src, pre) == LET m == Len(pre) + Len(src) + 1  b == Buffer(m, pre) IN
                        [buf0 |-> b, cpy |-> SafeStrncpy(m, src, b), cat |-> SafeStrncat(m, src, b)]
 
+(* Source and destination in the SAME buffer (safe_strncpy(buf, buf + k, size), k >= 0: truncation in place, moving a tail to   *)
+(* the front).  mem is the buffer, dest is its offset 0, the source string starts at offset k.  S: the outcome is that of       *)
+(* copying the source string as it was BEFORE the call ("longest prefix that fits", "TRUE exactly when nothing was cut"); bytes *)
+(* behind the size window keep their value.  X: a source that starts BEFORE the destination inside the same string (a forward   *)
+(* copy reads what it has just written) and every aliased shape of safe_strncat (its source would lose its terminator) are      *)
+(* outside the contract, as for strcpy / strcat.                                                                                  *)
+AliasedStrncpy(mem, k, size) ==
+    LET src == CStr(SubSeq(mem, k + 1, Len(mem)))
+        r == SafeStrncpy(size, src, SubSeq(mem, 1, size)) IN
+    [result |-> r.result \o SubSeq(mem, size + 1, Len(mem)), ret |-> r.ret, touched |-> r.touched, src |-> src]
+\* the buffer that holds the string t (then NUL, then filler) and is at least `size` bytes long
+AliasMem(t, size) == Buffer(IF size > Len(t) + 1 THEN size ELSE Len(t) + 1, t)
+
 (* substr.  S: negative idx counts from the end; outside 0..len-1 refused.  C (DESIGN.md 8a): cnt <= 0 means "up *)
 (* to |cnt| before the end", a negative resulting count is refused, an over-long count is clamped.              *)
 Substr(s, idx, cnt) ==
@@ -120,6 +133,9 @@ Init == /\ done = FALSE
                     x = [X0 EXCEPT !.s = s, !.idx = idx, !.cnt = cnt]
            \/ /\ fam = "inplace"
               /\ \E s \in SeqsUpTo(TextAlphabet, MaxText) : x = [X0 EXCEPT !.s = s]
+           \/ /\ fam = "alias"          \* s = the string in the buffer, idx = k (where the source starts), size
+              /\ \E s \in SeqsUpTo(CopyAlphabet \cup {98}, MaxSrc), k \in 0 .. MaxSrc, size \in 1 .. MaxSize :
+                    k <= Len(s) /\ x = [X0 EXCEPT !.s = s, !.idx = k, !.size = size]
 
 EvalCopy == /\ ~done /\ fam = "copy" /\ done' = TRUE /\ UNCHANGED <<fam, x>>
             /\ LET b == Buffer(x.size, x.pre) IN
@@ -128,7 +144,9 @@ EvalSubstr == /\ ~done /\ fam = "substr" /\ done' = TRUE /\ UNCHANGED <<fam, x>>
               /\ Obs("substr", <<x.s, x.idx, x.cnt>>, Substr(x.s, x.idx, x.cnt), TRUE)
 EvalInPlace == /\ ~done /\ fam = "inplace" /\ done' = TRUE /\ UNCHANGED <<fam, x>>
                /\ Obs("inplace", <<x.s>>, InPlaceAll(x.s), TRUE)
-Next == EvalCopy \/ EvalSubstr \/ EvalInPlace
+EvalAlias == /\ ~done /\ fam = "alias" /\ done' = TRUE /\ UNCHANGED <<fam, x>>
+             /\ LET m == AliasMem(x.s, x.size) IN Obs("alias", <<x.size, x.idx, m>>, AliasedStrncpy(m, x.idx, x.size), TRUE)
+Next == EvalCopy \/ EvalSubstr \/ EvalInPlace \/ EvalAlias
 Spec == Init /\ [][Next]_vars
 
 ------------------------------------------------------------------------------------------
@@ -187,6 +205,16 @@ InPlaceLawsOf(s) ==
         /\ Strrev(Strrev(s).result).result = s
         /\ Downcase(Upcase(s).result).result = Downcase(s).result
         /\ \A n \in 0 .. Len(s) : LET r == SafeStr(s, n).result IN Len(r) = Len(s) /\ \A k \in 1 .. n : ~IsCntrl(r[k])
+AliasLawsOf(t, k, size) ==
+        LET m == AliasMem(t, size)  r == AliasedStrncpy(m, k, size)  src == SubSeq(t, k + 1, Len(t))  got == CStr(r.result) IN
+        /\ r.src = src /\ Len(r.result) = Len(m)
+        /\ NulAt(r.result) <= size                                                  \* NulTerminated within size bytes
+        /\ IsPrefixOf(got, src) /\ (got # src => Len(got) = size - 1)               \* LongestPrefix of the ORIGINAL source
+        /\ r.ret = (got = src)                                                      \* TrueIffNothingCut
+        /\ \A j \in 1 .. Len(m) : (j - 1) \notin r.touched => r.result[j] = m[j]   \* TouchedWithinBounds, the rest untouched
+        /\ r.touched \subseteq 0 .. (size - 1)
+        /\ (k = 0 /\ Len(t) < size) => r.result = m /\ r.ret                       \* copying a fitting string onto itself changes nothing
+AliasLaws   == (fam = "alias" /\ ~done) => AliasLawsOf(x.s, x.idx, x.size)
 CopyLaws    == (fam = "copy" /\ ~done) => CopyLawsOf(x.size, x.src, x.pre)
 SubstrLaws  == (fam = "substr" /\ ~done) => SubstrLawsOf(x.s, x.idx, x.cnt)
 InPlaceLaws == (fam = "inplace" /\ ~done) => InPlaceLawsOf(x.s)
